@@ -258,9 +258,10 @@ def table_codes(d):
 def instances(tier):
     q = tier == "quick"
     out = []
+    # the whole of C07 is cheap: the quick tier runs the bounds the thorough tier used to have, the thorough tier goes further
     for t in range(8):
-        out.append(Inst(apci_rt, dict(t=t, paylen=2 if q else 4), budget=60 if q else 300))
-    out.append(Inst(apci_decode_total, dict(n=5 if q else 8), budget=90 if q else 600))
-    out.append(Inst(tables, dict(hi=2000 if q else 70000), budget=60 if q else 300))
+        out.append(Inst(apci_rt, dict(t=t, paylen=4 if q else 8), budget=120 if q else 600))
+    out.append(Inst(apci_decode_total, dict(n=8 if q else 10), budget=300 if q else 1800))
+    out.append(Inst(tables, dict(hi=70000 if q else 1000000), budget=120 if q else 600))
     out.append(Inst(table_codes, {}, budget=60))
     return out
